@@ -130,7 +130,45 @@ func (e *Env) StartOutbox() {
 	defer procMu.Unlock()
 	if !procOutboxOnce[e.Srv] {
 		procOutboxOnce[e.Srv] = true
-		go e.Srv.VerifProcessOutbox()
+		if e.SeqOutbox {
+			// history harnesses: the real sendTransaction, but one transaction at a time in queue order, so that a
+			// keep-alive round trip is a barrier (which schedules the production loop produces is C14's subject)
+			go func() {
+				for t := range e.Srv.VerifOutbox() {
+					e.Srv.VerifSendTransaction(t)
+				}
+			}()
+		} else {
+			go e.Srv.VerifProcessOutbox()
+		}
+	}
+}
+
+// Ping sends a keep-alive and waits for its reply: with the sequential outbox everything the server queued
+// before (for any client) has been written when it returns.
+func (w *WireClient) Ping() bool {
+	id := w.Send(500)
+	dl := time.Now().Add(1500 * time.Millisecond)
+	for time.Now().Before(dl) {
+		fs, _ := w.Frames()
+		for i := len(fs) - 1; i >= 0; i-- {
+			if fs[i].Reply == 1 && fs[i].ID == id {
+				return true
+			}
+		}
+		if w.ServerClosed() {
+			return false
+		}
+		time.Sleep(100 * time.Microsecond)
+	}
+	return false
+}
+
+// WaitServerDone waits until the connection goroutine has returned (deferred Disconnect included).
+func (w *WireClient) WaitServerDone() {
+	select {
+	case <-w.srvDone:
+	case <-time.After(5 * time.Second):
 	}
 }
 
